@@ -56,9 +56,19 @@ def build(rng, rows):
         return 'list-of-arrays', R([r.copy() for r in rows]), None
     flat = np.concatenate(rows)
     lens = [len(r) for r in rows]
+    tag = ''
+    # memory layout of the flat data (e.g. np.vstack([phi, psi]).T is
+    # Fortran-ordered; a column block of a wider table is strided)
+    r = rng.random()
+    if flat.ndim >= 2 and r < 0.3:
+        flat, tag = np.asfortranarray(flat), '[F]'
+    elif r < 0.45:
+        big = np.zeros((2 * len(flat),) + flat.shape[1:], dtype=flat.dtype)
+        big[::2] = flat
+        flat, tag = big[::2], '[strided]'
     if how == 2:
-        return 'flat+list-lengths', R(flat, lengths=lens), None
-    return 'flat+array-lengths', R(flat, lengths=np.array(lens)), None
+        return 'flat+list-lengths' + tag, R(flat, lengths=lens), None
+    return 'flat+array-lengths' + tag, R(flat, lengths=np.array(lens)), None
 
 
 def rnd_bound(rng, L):
